@@ -97,5 +97,12 @@ pub fn run(ctx: &Ctx) {
         || schematree::arb_same_shape_pair(TreeCfg { depth: 3, width: 4, exotic: true }),
         |t, l| check(t, l),
     );
+    let n = ctx.tier.pick(20_000, 200_000);
+    ctx.par_proptest(
+        "array-then-new-types",
+        n,
+        || schematree::arb_array_then_types(TreeCfg { depth: 3, width: 4, exotic: true }),
+        |t, l| check(t, l),
+    );
     super::corpus_checks::c19(ctx);
 }
